@@ -125,6 +125,17 @@ fn after_beat(hw: &mut HbWorld, info: &HbInfo, log_from: usize, pre_anchor: H32,
             _ => Expect::Initial,
         };
     }
+    // the tree never holds a block twice (a source may offer a processed block again)
+    {
+        out.checks += 1;
+        let th = sut::tree_hashes();
+        let mut u = th.clone();
+        u.sort();
+        u.dedup();
+        if u.len() != th.len() {
+            out.fail(format!("{ctx}: the tree holds {} blocks but only {} distinct ones: a block was applied twice", th.len(), u.len()));
+        }
+    }
     // admitted blocks: never twice, bit-identical to what the source holds
     for id in &info.admitted {
         out.checks += 1;
@@ -296,7 +307,7 @@ impl Property for C13 {
         }
     }
     fn rule(&self) -> String {
-        "Heartbeat-driver scenarios on regtest with a request-driven source following a generated reply script (complete replies of 1..3 blocks, blocks split over 1..40 or 255 follow-up pages at generated cut points incl. empty pages, empty replies, rejects of the initial request and of any follow-up) and a generated schedule: plain heartbeats, and groups of 2..3 heartbeats that overlap at the await point (the harness owns the yield point before the get_successors call, polls the futures by hand, interleaves queries and releases/completes them in a generated order), plus upgrades between messages. Oracle from the request log and the tree: at most one request outstanding; follow-ups numbered 0,1,2,... without gaps; after a reject, an upgrade or a completed response the next request is initial; every initial request names the current anchor, regtest and exactly the other unstable blocks; a split block is stored bit-identically to the source's block; no block applied twice; the fetch guard is free after every group; bounded liveness: once the script has no more faults every block the source holds below the anchor is in the tree after 20 + 5*(pages+blocks) further heartbeats. Non-trivial: a case with >= 2 heartbeats overlapped at the await point while a request was outstanding, or a reject between pages; distinct = scenario hashes.".into()
+        "Heartbeat-driver scenarios on regtest with a request-driven source following a generated reply script (complete replies of 1..3 blocks, blocks split over 1..40 or 255 follow-up pages at generated cut points incl. empty pages, empty replies, rejects of the initial request and of any follow-up, complete replies that offer a block the request lists as processed once more, before or after new blocks) and a generated schedule: plain heartbeats, and groups of 2..3 heartbeats that overlap at the await point (the harness owns the yield point before the get_successors call, polls the futures by hand, interleaves queries and releases/completes them in a generated order), plus upgrades between messages. Oracle from the request log and the tree: at most one request outstanding; follow-ups numbered 0,1,2,... without gaps; after a reject, an upgrade or a completed response the next request is initial; every initial request names the current anchor, regtest and exactly the other unstable blocks; a split block is stored bit-identically to the source's block; no block applied twice (never admitted twice, the tree never holds a hash twice); the fetch guard is free after every group; bounded liveness: once the script has no more faults every block the source holds below the anchor is in the tree after 20 + 5*(pages+blocks) further heartbeats. Non-trivial: a case with >= 2 heartbeats overlapped at the await point while a request was outstanding, or a reject between pages; distinct = scenario hashes.".into()
     }
     fn assumptions(&self) -> Vec<String> {
         vec![
@@ -318,7 +329,7 @@ impl Property for C13 {
         })
     }
     fn required_classes(&self, _tier: Tier) -> Vec<&'static str> {
-        vec!["heartbeats_overlapped_at_await_point", "reject_between_pages", "reject_of_initial", "split_completed", "liveness_checked", "upgrade_between_pages"]
+        vec!["heartbeats_overlapped_at_await_point", "reject_between_pages", "reject_of_initial", "split_completed", "liveness_checked", "upgrade_between_pages", "processed_block_offered_again"]
     }
     fn max_shrink_iters(&self) -> u32 {
         400
@@ -401,6 +412,10 @@ impl Property for C13 {
         }
         if t.splits_completed > 0 {
             out.class_n("split_completed", t.splits_completed as u64);
+        }
+        let reoffered = hw.source.borrow().reoffered;
+        if reoffered > 0 {
+            out.class_n("processed_block_offered_again", reoffered);
         }
         if t.overlapped > 0 || t.reject_between_pages > 0 {
             out.nontrivial(fnv(format!("{:?}", case).as_bytes()));
